@@ -54,7 +54,7 @@ def one_step(cls, cap, n, ks, vs, op, key, val):
         else:
             exp = pre + [(key, val)]
     elif op == 1:  # get
-        r = c.get(key, -7)
+        r = c.get(key, DFLT)
         if hit >= 0:
             ok = r == pre[hit][1]
             exp = pre[:hit] + pre[hit + 1:] + [pre[hit]]
@@ -151,6 +151,47 @@ def c24_string_keys(cap: int, n: int, k0: str, k1: str, op: int, key: str, val: 
     if excluded("c24_string_keys", locals()):
         return True
     ok, _ = one_step(M.LRUCache, cap, n, [k0, k1, "", ""], [100, 101, 102, 103], op, key, val)
+    return finish(ok)
+
+
+DFLT = -7     # the default object handed to get() in one_step (op 1)
+
+
+def special_values(ns, ds):
+    vs = [100, 101, 102, 103]
+    for i in range(4):
+        if ns == i:
+            vs[i] = None
+        if ds == i:
+            vs[i] = DFLT
+    return vs
+
+
+def c24_lru_step_special_values(cap: int, n: int, k0: int, k1: int, k2: int, op: int, key: int, ns: int, ds: int) -> bool:
+    """
+    pre: 1 <= cap <= 3 and 0 <= n <= cap
+    pre: k0 != k1 and k0 != k2 and k1 != k2
+    pre: 0 <= op <= 10 and -1 <= ns <= 2 and -1 <= ds <= 2
+    post: _
+    """
+    # the same step with a stored value that is None (ns) or the very object passed as default to get() (ds):
+    # a hit must not be mistaken for a miss
+    if excluded("c24_lru_step_special_values", locals()):
+        return True
+    ok, _ = one_step(M.LRUCache, cap, n, [k0, k1, k2, 0], special_values(ns, ds), op, key, None)
+    return finish(ok)
+
+
+def c24_ts_step_special_values(cap: int, n: int, k0: int, k1: int, k2: int, op: int, key: int, ns: int, ds: int) -> bool:
+    """
+    pre: 1 <= cap <= 3 and 0 <= n <= cap
+    pre: k0 != k1 and k0 != k2 and k1 != k2
+    pre: 0 <= op <= 10 and -1 <= ns <= 2 and -1 <= ds <= 2
+    post: _
+    """
+    if excluded("c24_ts_step_special_values", locals()):
+        return True
+    ok, _ = one_step(M.ThreadSafeLRUCache, cap, n, [k0, k1, k2, 0], special_values(ns, ds), op, key, None)
     return finish(ok)
 
 
@@ -283,6 +324,8 @@ def c24_len_vs_writer(k0: int, key: int) -> bool:
 CONDITIONS = [
     {"fn": "c24_lru_step", "quick": 90, "thorough": 400},
     {"fn": "c24_ts_step", "quick": 90, "thorough": 400},
+    {"fn": "c24_lru_step_special_values", "quick": 90, "thorough": 400},
+    {"fn": "c24_ts_step_special_values", "quick": 90, "thorough": 400},
     {"fn": "c24_ts_lock_discipline", "quick": 60, "thorough": 300},
     {"fn": "c24_string_keys", "quick": 60, "thorough": 300},
     {"fn": "c24_capacity", "quick": 20, "thorough": 40},
